@@ -39,8 +39,9 @@ namespace fs = std::filesystem;
 std::string kToken = "S3cret-Tok3n";   // reset toklen=N replaces it by a token of N characters
 
 // values the framing checks inject into daemon-side strings (index = script argument)
-const std::vector<std::string> kValues = {"", "x", "a\nb", "a\n", "k:v", "\n", "a\\nb", "\\", "x\ry", "a\nCODE:EVIL",
-                                          "p q", "C:\\dir\\new", "a\n\nb", "tail\\", "/var/lib/eph"};
+const std::vector<std::string> kValues = {"", "x", "a\nb", "a\n", "k:v", "\n", "a\\nb", "\\", "x\ry", " x", "x ", "a\nCODE:EVIL",
+                                          "p q", "C:\\dir\\new", "a\n\nb", "tail\\", "/var/lib/eph",
+                                          "\tboth \t", " ", "a\n b ", " /srv/eph store/", "key : value "};   // blanks at the edges are part of the value
 
 std::string vis(const std::string& s) {  // visible, injective encoding (TLC only compares)
     std::string r;
